@@ -958,6 +958,11 @@ def gen_hist(rng, nops, sim, observer, mutator, okstate):
             if push(mutator(rng, sim)):
                 break
         o2 = o if rng.random() < 0.75 else observer(rng, sim)
+        if ops and ops[-1][0] == "Z" and hasattr(sim, "c"):
+            # after Matrix::Resize read EVERY entry of the new shape (the appended rows in particular)
+            for extra in (("P",), ("N",), ("R", sim.r - 1, sim.c - 1), ("RR", sim.r - 1)):
+                if rng.random() < 0.7:
+                    push(extra)
         if not push(o2):
             push(observer(rng, sim))
     return ops
@@ -1005,6 +1010,15 @@ def m_mutator(rng, sim):
     if q < 0.62:
         return ("W", rng.randrange(r), rng.randrange(c), rng.choice([0.0, 1.0, -1.0, hval(rng), hval(rng)]))
     if q < 0.70:
+        v = rng.randrange(6)     # rows up / cols same, rows down (a later pass grows them again), cols change / rows same, both
+        if v == 0:
+            return ("Z", r + rng.randint(1, 2), c)
+        if v == 1:
+            return ("Z", max(1, r - rng.randint(1, 2)), c)
+        if v == 2:
+            return ("Z", r, max(1, c + rng.choice([-1, 1, 2])))
+        if v == 3:
+            return ("Z", r + 1, c + 1)
         nr = rng.randint(1, 4); return ("Z", nr, nr if rng.random() < 0.5 else rng.randint(1, 4))
     if q < 0.76:
         nr = rng.randint(1, 4); return ("A", nr, nr if rng.random() < 0.5 else rng.randint(1, 4), hval(rng))
@@ -1023,7 +1037,7 @@ def gen_mhist(rng, nops):
     if rng.random() < 0.6:
         c = r
     A0 = sperm(rng, r) if (r == c and rng.random() < 0.25) else hmat(rng, r, c)
-    ok = lambda t: t.r >= 1 and t.c >= 1 and t.mx() <= 2 ** 12
+    ok = lambda t: 1 <= t.r <= 6 and 1 <= t.c <= 6 and t.mx() <= 2 ** 12
     ops = gen_hist(rng, nops, MSim(A0, c), m_observer, m_mutator, ok)
     return "c04.mhist %s %d %s" % (mat_tok(A0), len(ops), " ".join(op_tok(o) for o in ops))
 
@@ -1058,15 +1072,20 @@ def triple_corpus():
     inits = [mk([[2, 1, 0], [1, 3, 1], [0, 1, 4]]), mk([[0, 1, 0], [-1, 0, 0], [0, 0, 1]]), mk([[0, 5, 0], [-1, 0, 0], [0, 0, 1]])]
     B = mk([[1, 0, 2], [0, 1, 0], [3, 0, 1]])
     mobs = [("N",), ("T",), ("D",), ("P",), ("Y",), ("AY",), ("DG",), ("S",), ("R", 0, 1), ("RR", 0), ("RC", 1), ("RC", 0), ("O",),
-            ("I",), ("SM", 1, 0), ("C", B)]
+            ("I",), ("SM", 1, 0), ("C", B), ("RL",), ("RRL",)]
     mmut = [[("+", B)], [("-", B)], [("W", 0, 1, 1.0)], [("W", 0, 1, 7.0)], [("W", 1, 0, 1.0), ("W", 0, 1, 1.0)], [("W", 2, 2, 0.0)],
-            [("Z", 2, 2)], [("Z", 3, 4), ("DC", 3)], [("A", 3, 3, 2.0)], [("=", B)], [("=", mk([[0, 0, 1], [1, 0, 0], [0, 1, 0]]))],
+            [("Z", 2, 2)], [("Z", 3, 4), ("DC", 3)], [("Z", 4, 3)], [("Z", 5, 3)], [("Z", 1, 3), ("Z", 3, 3)], [("Z", 2, 3), ("Z", 4, 3)],
+            [("Z", 3, 2)], [("Z", 3, 4)], [("Z", 4, 4)], [("Z", 2, 3)], [("Z", 1, 1), ("Z", 3, 1), ("Z", 3, 3)], [("A", 3, 3, 2.0)], [("=", B)], [("=", mk([[0, 0, 1], [1, 0, 0], [0, 1, 0]]))],
             [("DR", 0), ("DC", 0)], [("DR", 2)], [("DC", 1)]]
     for A0 in inits:
         for o in mobs:
             for m in mmut:
                 sim = MSim(A0, A0.ncols); good = True; fixed = []
                 for op in [o] + m + [o]:
+                    if op[0] == "RL":        # [][] read of the last entry of the last row
+                        op = ("R", sim.r - 1, sim.c - 1)
+                    if op[0] == "RRL":       # Return_Row of the last row
+                        op = ("RR", sim.r - 1)
                     if op[0] == "C":
                         if (sim.r, sim.c) != (3, 3):
                             op = ("C", Rows([[1.0] * sim.c for _ in range(sim.r)], sim.c))
